@@ -173,19 +173,6 @@ def _get_process_streams_in_each_subzone(
 ) -> Zone:
     """Extracts all stream data into class instances, creates the required subzones and adds these to the parent zone."""
 
-    streams_by_full_path = defaultdict(list)
-    streams_by_relative_path = defaultdict(list)
-    for stream in streams:
-        zone_path = getattr(stream, "zone", None)
-        if not zone_path:
-            continue
-        streams_by_full_path[zone_path].append(stream)
-        path_components = zone_path.split("/")
-        for idx in range(1, len(path_components)):
-            relative_key = "/".join(path_components[idx:])
-            streams_by_relative_path[relative_key].append(stream)
-        streams_by_relative_path[zone_path].append(stream)
-
     def _iter_zones(parent_zone: Zone):
         """Depth-first traversal yielding each zone once."""
         yield parent_zone
@@ -200,6 +187,21 @@ def _get_process_streams_in_each_subzone(
             path_parts.append(current.name)
             current = current.parent_zone
         return delimiter.join(reversed(path_parts))
+
+    # A stream label is either the full path of a zone or that path without the
+    # top-level zone. A label that is some zone's full path belongs to that zone only;
+    # matching shorter suffixes would hand it to unrelated zones that end the same way.
+    zone_full_paths = {_get_zone_path_from_child(z) for z in _iter_zones(master_zone)}
+    streams_by_full_path = defaultdict(list)
+    streams_by_relative_path = defaultdict(list)
+    for stream in streams:
+        zone_path = getattr(stream, "zone", None)
+        if not zone_path:
+            continue
+        if zone_path in zone_full_paths:
+            streams_by_full_path[zone_path].append(stream)
+        else:
+            streams_by_relative_path[zone_path].append(stream)
 
     for zone in _iter_zones(master_zone):
         zone_path = _get_zone_path_from_child(zone)
